@@ -38,6 +38,7 @@ type RoundObs struct {
 	ExitCode   int
 	TimedOut   bool
 	WallMs     int64
+	Skipped    bool `json:",omitempty"` // not run: the time budget of the tier was used up by earlier (hung) rounds
 }
 
 // childObs is what the child writes to C07_CHILD_OUT.
@@ -86,7 +87,7 @@ func runRound(exe, roundsDir string, spec RoundSpec) RoundObs {
 	specPath, outPath := filepath.Join(dir, "spec.json"), filepath.Join(dir, "obs.json")
 	lib.Must(os.WriteFile(specPath, sb, 0o644))
 
-	ctx, cancel := context.WithTimeout(context.Background(), 120*time.Second)
+	ctx, cancel := context.WithTimeout(context.Background(), 45*time.Second)
 	defer cancel()
 	cmd := exec.CommandContext(ctx, exe)
 	cmd.Env = append(os.Environ(),
@@ -154,7 +155,7 @@ func readSpecFile(path string) RoundSpec {
 func generated(a lib.Args) []RoundSpec {
 	r := lib.NewRng(a.Seed)
 	thorough := a.Tier == "thorough"
-	nDB, nProto := 30, 150
+	nDB, nProto := 30, 120
 	gs := []int{2, 8}
 	pgs := []int{2, 2, 3, 4, 8}
 	if thorough {
@@ -213,6 +214,24 @@ func generated(a lib.Args) []RoundSpec {
 	}
 	for i := 0; i < nSer; i++ {
 		d := genSerial(r.Fork(), []int{8, 16, 12, 4}[i%4], thorough)
+		out = append(out, RoundSpec{Kind: "db", DB: &d})
+	}
+	// shared Session handles carrying 3 / 5-7 chain items; first use of statement texts whose
+	// preparation fails; staggered cold starts on one soft-delete model
+	nShared, nFail, nStag := 8, 4, 4
+	if thorough {
+		nShared, nFail, nStag = 60, 30, 30
+	}
+	for i := 0; i < nShared; i++ {
+		d := genShared(r.Fork(), i, []int{4, 8, 6, 12}[i%4], thorough)
+		out = append(out, RoundSpec{Kind: "db", DB: &d})
+	}
+	for i := 0; i < nFail; i++ {
+		d := genFailingPrepare(r.Fork(), []int{16, 12, 16, 8}[i%4], i%4 == 3, thorough)
+		out = append(out, RoundSpec{Kind: "db", DB: &d})
+	}
+	for i := 0; i < nStag; i++ {
+		d := genStaggered(r.Fork(), []int{6, 4, 8, 3}[i%4])
 		out = append(out, RoundSpec{Kind: "db", DB: &d})
 	}
 	for i := 0; i < nProto; i++ {
@@ -332,6 +351,7 @@ func main() {
 		os.Exit(2)
 	}
 	out := lib.NewOut(a.Out, "C07")
+	out.PerFile = 50 // database cases are large terms: evaluate them in parallel
 	exe, err := os.Executable()
 	if err != nil {
 		exe = os.Args[0]
@@ -369,6 +389,10 @@ func main() {
 		go func(i int) {
 			defer wg.Done()
 			defer func() { <-sem }()
+			if time.Since(t0) > runBudget(a.Tier) {
+				results[i] = RoundObs{Skipped: true}
+				return
+			}
 			results[i] = runRound(exe, roundsDir, specs[i])
 		}(i)
 	}
@@ -429,4 +453,13 @@ func parallelChildren() int {
 		n = 1
 	}
 	return n
+}
+
+// runBudget: after this much wall time no further round is started (rounds that hang take their
+// watchdog time; the run must end inside the driver's harness timeout and report what it has).
+func runBudget(tier string) time.Duration {
+	if tier == "thorough" {
+		return 1800 * time.Second
+	}
+	return 110 * time.Second
 }
